@@ -172,6 +172,13 @@ Flip(r) == IF r = None THEN None ELSE 0 - r
 FieldCmp(o, mode, x, y) ==
     LET r == Cmp3(Proj(o, mode, x), Proj(o, mode, y)) IN IF o.rev THEN Flip(r) ELSE r
 
+\* Partially ordered field type (float-like): the value NaN is unequal to and incomparable with
+\* everything, itself included.  Only the field's OWN comparison is partial; keys are totally ordered.
+NaN == 7
+Partial(o, x, y) == o.pv /\ o.k = "default" /\ (x = NaN \/ y = NaN)
+FieldEqP(o, mode, x, y) == ~Partial(o, x, y) /\ Proj(o, mode, x) = Proj(o, mode, y)
+FieldCmpP(o, mode, x, y) == IF Partial(o, x, y) THEN None ELSE FieldCmp(o, mode, x, y)
+
 (***************************************************************************)
 (* Items.  P = [kind, variants : Seq([shape, fields : Seq([cmp : Cfg])])] *)
 (* A value is [v |-> variant index, f |-> sequence of field values].       *)
@@ -184,7 +191,8 @@ NF(P, vi) == Len(FieldsOf(P, vi))
 Outcomes(P, D) ==
     [t \in CmpTraits |->
         [vi \in DOMAIN P.variants |->
-            [j \in DOMAIN FieldsOf(P, vi) |-> FieldOutcome(FieldsOf(P, vi)[j].cmp, t, D)]]]
+            [j \in DOMAIN FieldsOf(P, vi) |->
+                FieldOutcome(FieldsOf(P, vi)[j].cmp, t, D) @@ [pv |-> FieldsOf(P, vi)[j].ty = "pv"]]]]
 
 AcceptedO(O, t) == \A vi \in DOMAIN O[t] : \A j \in DOMAIN O[t][vi] : O[t][vi][j].o # "err"
 ItemAccepted(P, t, D) == AcceptedO(Outcomes(P, D), t)
@@ -193,13 +201,13 @@ EqO(O, mode, x, y) ==
     /\ x.v = y.v
     /\ \A j \in DOMAIN O["PartialEq"][x.v] :
           LET o == O["PartialEq"][x.v][j]
-          IN  o.o = "skip" \/ Proj(o, mode, x.f[j]) = Proj(o, mode, y.f[j])
+          IN  o.o = "skip" \/ FieldEqP(o, mode, x.f[j], y.f[j])
 
 RECURSIVE LexFrom(_, _, _, _, _)
 LexFrom(os, mode, xf, yf, j) ==
     IF j > Len(os) THEN 0
     ELSE IF os[j].o = "skip" THEN LexFrom(os, mode, xf, yf, j + 1)
-    ELSE LET r == FieldCmp(os[j], mode, xf[j], yf[j])
+    ELSE LET r == FieldCmpP(os[j], mode, xf[j], yf[j])          \* first non-equal result decides, None included
          IN  IF r = 0 THEN LexFrom(os, mode, xf, yf, j + 1) ELSE r
 
 \* t = "PartialOrd" gives partial_cmp (None never arises over the totally ordered Val),
